@@ -33,9 +33,10 @@ class Exchange(MixIn):
                  name=None,
                  device=None,
                  timeout=None,
-                 redoTimout=None,
+                 redoTimeout=None,
                  tx=None,
-                 rx=None):
+                 rx=None,
+                 redoTimout=None):
         """
         Setup Exchange instance
 
@@ -85,7 +86,9 @@ class Exchange(MixIn):
         self.device = device
         self.timeout = timeout if timeout is not None else self.Timeout
         self.timer = StoreTimer(stack.stamper, duration=self.timeout)
-        self.redoTimeout = redoTimeout if redoTimout is not None else self.RedoTimeout
+        if redoTimeout is None:
+            redoTimeout = redoTimout  # accept former misspelling of parameter
+        self.redoTimeout = redoTimeout if redoTimeout is not None else self.RedoTimeout
         self.redoTimer = StoreTimer(stack.stamper, duration=self.redoTimeout)
         self.rx = rx  # latest received
         self.tx = tx  # initial to transmit
